@@ -292,4 +292,13 @@ def directed_cases(pid, start):
         out.append(C(0, ("hide", -1, t), rv, ["r", "v"], [11, 22]))
         out.append(C(0, ("bind", -1, t if t[0] not in ("retype", "slot") else (t[0], ("hide", -1, leaf), [("O", False), ("O", False)], True), [("v", 55)]), rv, ["r"], [11]))
         out.append(C(0, t, rv, ["r"], [11]))
+    # exception_catch over a throwing functor: a catcher that returns, and one that rethrows (the
+    # exception must reach the caller through every route), alone and under other adaptors
+    thr = ("leaf", 6, 1)
+    for c in (1500, 5500):
+        out.append(C(0, ("ec", thr, c), True, ["v"], [11]))
+        out.append(C(0, ("hide", -1, ("ec", thr, c)), True, ["v", "v"], [11, 22]))
+        out.append(C(0, ("bind", -1, ("ec", ("leaf", 6, 1), c), [("v", 9)]), True, [], []))
+        out.append(C(0, ("ec", ("ec", thr, 5600), c), True, ["v"], [11]))
+        out.append(C(0, ("rr", ("ec", thr, c)), True, ["v"], [11]))
     return out
